@@ -209,7 +209,8 @@ type c19Script struct {
 	fresh   bool // ok: return a new payload instead of editing the given one
 	wrap    bool // skip: wrapped sentinel; err: mutate the payload before failing
 	zero    bool // err/skip: return the zero-value payload
-	sinkN   int  // ledger of the current call: items the next consumer received, -1 = not called
+	empty   bool // the next consumer takes ownership: it moves everything out of the payload before it returns
+	sinkN   int  // ledger of the current call: items the next consumer received (counted at call entry), -1 = not called
 }
 
 var (
@@ -248,9 +249,10 @@ func TestVerifC19Processor(t *testing.T) {
 	sigName := []string{"t", "m", "l"}
 	sigAttr := []string{"traces", "metrics", "logs"}
 	// thorough: EXHAUSTIVE small scope, every history of length <= 2 over {3 signals} x {0, 2 items in} x
-	// {ok out=0, ok out=2, ok out=3, ok out=1 + next consumer fails, process error, skip}; index c19Exh+e = e-th history
+	// {ok out=0, ok out=2, ok out=3, ok out=1 + next consumer fails, process error, skip} x {next consumer keeps / empties the
+	// payload}; index c19Exh+e = e-th history
 	const c19Exh = 1000000
-	alphabet := 36
+	alphabet := 72
 	cases := vCases(n)
 	if vThorough() && os.Getenv("VERIF_REPLAY_CASE") == "" {
 		for e := 0; e < 1+alphabet+alphabet*alphabet; e++ {
@@ -271,9 +273,28 @@ func TestVerifC19Processor(t *testing.T) {
 		if rnd.IntN(2) == 0 {
 			opts = append(opts, WithCapabilities(consumer.Capabilities{MutatesData: rnd.IntN(2) == 0}))
 		}
-		lsink, _ := consumer.NewLogs(func(_ context.Context, ld plog.Logs) error { s.sinkN = ld.LogRecordCount(); return s.next() })
-		msink, _ := consumer.NewMetrics(func(_ context.Context, md pmetric.Metrics) error { s.sinkN = md.DataPointCount(); return s.next() })
-		tsink, _ := consumer.NewTraces(func(_ context.Context, td ptrace.Traces) error { s.sinkN = td.SpanCount(); return s.next() })
+		mut := consumer.WithCapabilities(consumer.Capabilities{MutatesData: true})
+		lsink, _ := consumer.NewLogs(func(_ context.Context, ld plog.Logs) error {
+			s.sinkN = ld.LogRecordCount()
+			if s.empty { // as a batching consumer does: the resources now belong to it
+				ld.ResourceLogs().MoveAndAppendTo(plog.NewLogs().ResourceLogs())
+			}
+			return s.next()
+		}, mut)
+		msink, _ := consumer.NewMetrics(func(_ context.Context, md pmetric.Metrics) error {
+			s.sinkN = md.DataPointCount()
+			if s.empty {
+				md.ResourceMetrics().MoveAndAppendTo(pmetric.NewMetrics().ResourceMetrics())
+			}
+			return s.next()
+		}, mut)
+		tsink, _ := consumer.NewTraces(func(_ context.Context, td ptrace.Traces) error {
+			s.sinkN = td.SpanCount()
+			if s.empty {
+				td.ResourceSpans().MoveAndAppendTo(ptrace.NewTraces().ResourceSpans())
+			}
+			return s.next()
+		}, mut)
 		lp, err1 := NewLogs(context.Background(), set, nil, lsink, func(_ context.Context, ld plog.Logs) (plog.Logs, error) {
 			if s.kind != "ok" {
 				if s.wrap {
@@ -352,8 +373,8 @@ func TestVerifC19Processor(t *testing.T) {
 			for j := 0; j < length; j++ {
 				a := e % alphabet
 				e /= alphabet
-				op := opT{sig: a % 3, in: 2 * ((a / 3) % 2), sc: c19Script{kind: "ok", sinkN: -1}}
-				switch a / 6 {
+				op := opT{sig: a % 3, in: 2 * ((a / 3) % 2), sc: c19Script{kind: "ok", sinkN: -1, empty: a/36 == 1}}
+				switch (a / 6) % 6 {
 				case 0:
 					op.sc.out = 0
 				case 1:
@@ -369,6 +390,11 @@ func TestVerifC19Processor(t *testing.T) {
 				}
 				ops = append(ops, op)
 			}
+		} else if c < 6 {
+			// corpus: one payload of 4 items per signal handed on unchanged to a next consumer that EMPTIES it and
+			// succeeds (cases 0-2) / fails (cases 3-5)
+			mode = "corpus"
+			ops = append(ops, opT{sig: c % 3, in: 4, sc: c19Script{kind: "ok", out: 4, sinkN: -1, empty: true, nextErr: c >= 3}})
 		} else {
 			nops := rnd.IntN(21)
 			for o := 0; o < nops; o++ {
@@ -394,6 +420,7 @@ func TestVerifC19Processor(t *testing.T) {
 						op.sc.out = rnd.IntN(40)
 					}
 					op.sc.nextErr = rnd.IntN(4) == 0
+					op.sc.empty = rnd.IntN(3) == 0
 				}
 				ops = append(ops, op)
 			}
@@ -401,11 +428,15 @@ func TestVerifC19Processor(t *testing.T) {
 		out.Linef("case %d mode=%s", c, mode)
 		nops := len(ops)
 		changed, failed := false, false
+		nEmpty := 0
 		for _, op := range ops {
 			sig, in := op.sig, op.in
 			*s = op.sc
 			if s.kind == "ok" {
-				out.Linef("op proc sig=%s in=%d out=ok:%d:%d", sigName[sig], in, s.out, vB(s.nextErr))
+				out.Linef("op proc sig=%s in=%d out=ok:%d:%d empty=%d", sigName[sig], in, s.out, vB(s.nextErr), vB(s.empty))
+				if s.empty {
+					nEmpty++
+				}
 				changed = changed || s.out != in
 			} else {
 				out.Linef("op proc sig=%s in=%d out=%s", sigName[sig], in, s.kind)
@@ -462,6 +493,7 @@ func TestVerifC19Processor(t *testing.T) {
 			out.Linef("nt")
 		}
 		out.Linef("stat ops %d", nops)
+		out.Linef("stat emptying_consumer %d", nEmpty)
 		out.Linef("stat mode_%s 1", mode)
 		out.Linef("end")
 		out.Flush()
